@@ -204,7 +204,8 @@ def run(tier):
 
     for m_ in toy.run_toy(chk, quick, rnd, "C04", kinds=None)[:5]:
         chk.violation(f"C04|toy-universe|target={m_['target']}|{m_['what'][:40]}", f"toy universe (MC_Dag configuration {m_['id']}): {m_['what']} for target {m_['target']}", m_)
-    dates = ["2023-01-01"] + rnd.sample([d for d in DATES if d != "2023-01-01"], 2 if quick else len(DATES) - 1)
+    # 2002-01-01: the only years in which a rounding specification carries an offset (to_add_after_rounding) are 2001-2003
+    dates = ["2023-01-01", "2002-01-01"] + rnd.sample([d for d in DATES if d != "2023-01-01"], 1 if quick else len(DATES) - 1)
     npop = 12 if quick else 120
     jobs = [(dates[t % len(dates)], rnd.randrange(1 << 30), t, 4 if quick else 5, str(chk.work)) for t in range(npop)]
     jobs.sort()
